@@ -30,6 +30,7 @@ type c03Case struct {
 	Syms      []int  `json:"syms,omitempty"`
 	UserShape string `json:"user_shape,omitempty"`
 	RealClock bool   `json:"real_clock,omitempty"`
+	ACSEmpty  bool   `json:"acs_empty,omitempty"` // the stored consumer URL is empty (response returned in the body)
 	// history: a second stored request for another user shape is called back first on the same provider
 	Earlier string `json:"earlier,omitempty"`
 }
@@ -61,6 +62,9 @@ func (c c03Case) params() cbP {
 	for i, f := range c.Fields {
 		c04Apply(&p, f, sXML[c.Syms[i]].Val)
 	}
+	if c.ACSEmpty {
+		p.ACS = strp("")
+	}
 	return p
 }
 
@@ -80,6 +84,9 @@ func (c c03Case) labels() []string {
 	add("earlier-callback-for", c.Earlier)
 	if c.RealClock {
 		l = append(l, "real-clock")
+	}
+	if c.ACSEmpty {
+		l = append(l, "stored-consumer-url=empty")
 	}
 	for i, f := range c.Fields {
 		l = append(l, "field="+c03FieldNames[f]+"/char="+sXML[c.Syms[i]].Name)
@@ -175,7 +182,9 @@ func c03Judge(c c03Case, checkIDs bool) c03Verdict {
 		bad("attribute-statement", strings.ReplaceAll(strings.Join(got, " | "), "\x00", ","), strings.ReplaceAll(strings.Join(want, " | "), "\x00", ","))
 	}
 	// RelayState byte for byte (absent == empty)
-	eq("relaystate", m.RelayState, t.Relay)
+	if m.Kind != obs.KindBody {
+		eq("relaystate", m.RelayState, t.Relay)
+	}
 	// validity window
 	layout := msg.TimeLayout
 	if c.TimeFmt == "seconds" {
@@ -283,7 +292,9 @@ func runC03(ctx Ctx) int {
 			for _, us := range shapes {
 				cases = append(cases, c03Case{Binding: b, UserShape: us, Earlier: e})
 			}
+			cases = append(cases, c03Case{Binding: b, Earlier: e, ACSEmpty: true})
 		}
+		cases = append(cases, c03Case{Binding: b, ACSEmpty: true})
 	}
 	deadline := devx.Deadline(map[string]time.Duration{"quick": 5 * time.Minute, "thorough": 30 * time.Minute}[run.Tier])
 	// real-clock cases run alone (they un-pin the process-wide clock)
